@@ -106,3 +106,22 @@ def buffersizes(n):
         if b not in c:
             c.append(b)
     return st.sampled_from(c)
+
+
+TWINS = {0: [0.0, False, Decimal("0")], 1: [1.0, True, Decimal("1")], 2: [2.0, Decimal("2")], -1: [-1.0, Decimal("-1")],
+         3: [3.0, Decimal("3")], 10: [10.0, Decimal("10")]}
+
+
+@st.composite
+def twinned_pool(draw, elements=keyish, min_size=2, max_size=5):
+    """A small pool that, half of the time, is made to contain values that are == but of different type (1, 1.0, True,
+    Decimal(1)) - by construction, not by luck: equal keys of different type are where grouping, joining and dedup logic
+    that compares with anything but == goes wrong."""
+    p = draw(st.lists(elements, min_size=min_size, max_size=max_size))
+    if draw(st.booleans()):
+        base = draw(st.sampled_from(sorted(TWINS)))
+        p.append(base)
+        p.append(draw(st.sampled_from(TWINS[base])))
+        if draw(st.booleans()):
+            p.append(draw(st.sampled_from(TWINS[base])))
+    return p
